@@ -25,6 +25,17 @@ build() {
   rm -f "$log"
 }
 build --release
+# E6 units run the repository's own binary (guard off), built into a cache under /verif
+case "${1:-}" in
+  C12|C13|C18)
+    if ! ( cd /repo && CARGO_TARGET_DIR="$VERIF/.cache/repo-target" cargo build --offline --release >"$VERIF/.work/repo-build.log" 2>&1 ); then
+      tail -20 "$VERIF/.work/repo-build.log"
+      echo "MACHINERY-ERROR: building the repository binary failed"
+      exit 2
+    fi
+    export VERIF_REPO_BIN="$VERIF/.cache/repo-target/release/koge29_h8-3069f_emulator"
+    ;;
+esac
 case "${1:-}" in
   C15|replay) build --profile ovf ;;
 esac
